@@ -139,7 +139,7 @@ class Run:
                 c = what.split(":")[0][:60]
                 cats.setdefault(c, [0, key])
                 cats[c][0] += 1
-            for c, (n, k) in sorted(cats.items(), key=lambda x: -x[1][0]):
+            for c, (n, k) in sorted(cats.items(), key=lambda x: -x[1][0])[:25]:
                 lines.append(f"  category {c!r}: {n} violations, e.g. {k[:100]}")
         ev = {
             "property_id": self.pid,
